@@ -7,6 +7,7 @@ import QModel.WF
 import QModel.Pipeline
 import QModel.Skeleton
 import QModel.Calib
+import QModel.Validate
 open Lean Num Nd Arith Cfg Graph Mat
 
 /-! JSON-lines driver: one request per line on stdin, one response per line on stdout. -/
@@ -363,6 +364,22 @@ def getSamples (j : Json) : Except String (List Calib.Contents) := do
       pure (name, d)
 
 
+
+def getTData (j : Json) : Except String (String × Validate.TData) := do
+  let name ← j.getObjValAs? String "name"
+  let kind ← j.getObjValAs? String "kind"
+  if kind == "float" then
+    let d ← getRatList j "data"
+    pure (name, .float d)
+  else
+    let q ← getIArr (← j.getObjVal? "q")
+    let qp ← getQParams (← j.getObjVal? "qp")
+    pure (name, .quant q qp)
+
+def groupToJson (g : List (String × Rat)) : Json :=
+  Json.arr (g.map fun e => Json.arr #[Json.str e.1, ratToJson e.2]).toArray
+
+
 def okJson (j : Json) : Json := Json.mkObj [("ok", j)]
 def errJson (e : PyErr) : Json := Json.mkObj [("err", Json.str (toString e))]
 def pyToJson {α} (f : α → Json) : PyM α → Json
@@ -489,6 +506,22 @@ def handle (j : Json) : Except String Json := do
       let sgi ← j.getObjValAs? Nat "sg"
       let samples ← getSamples j
       pure (pyToJson qsvsToJson (Calib.calibrate rx env st sgi prev samples))
+  | "validate" =>
+      let ms ← j.getObjValAs? String "metric"
+      let metric : Validate.Metric := if ms == "mse" then .mse else .mdr
+      let ss ← j.getObjValAs? (Array Json) "samples"
+      let samples ← ss.toList.mapM fun smp => do
+        let r ← smp.getObjValAs? (Array Json) "ref"
+        let t ← smp.getObjValAs? (Array Json) "target"
+        let rl ← r.toList.mapM getTData
+        let tl ← t.toList.mapM getTData
+        pure ({ ref := rl, target := tl } : Validate.Sample)
+      let ins ← j.getObjValAs? (Array String) "inputs"
+      let outs ← j.getObjValAs? (Array String) "outputs"
+      let cs ← j.getObjValAs? (Array String) "constants"
+      pure (pyToJson (fun (g : Validate.Groups) => Json.mkObj [("inputs", groupToJson g.inputs), ("outputs", groupToJson g.outputs),
+          ("constants", groupToJson g.constants), ("intermediates", groupToJson g.intermediates)])
+        (Validate.compare metric samples ins.toList outs.toList cs.toList))
   | _ => throw s!"unknown op {op}"
 
 end Drv
